@@ -226,7 +226,8 @@ def prepare_group(args):
                 # function contract + loop contract with verification conditions generated by ll2c itself (assert/assume form)
                 dd = ob.dfcc
                 cs = {k: dict(v, mode='vc') for k, v in dd['contracts'].items()}
-                ctext, info = ll2c.emit_closure(mod, [dd['target']], srcroot=REPO.rstrip('/') + '/', contracts=cs, stubs=set(dd.get('replace', [])))
+                ctext, info = ll2c.emit_closure(mod, [dd['target']], srcroot=REPO.rstrip('/') + '/', contracts=cs, stubs=set(dd.get('replace', [])),
+                                                 abstract=tuple(dd.get('pure', ())))
                 missing = [g for g in dd.get('replace', []) if g not in info['functions']]
                 if missing:
                     out[ob.id] = ('infra', 'callee to be replaced by its contract is not called any more: %r' % missing); continue
@@ -582,9 +583,40 @@ def decide(d, ob, src='h.c', budget=None, log=None):
     return answer
 
 
+def solve_static(ob, workdir):
+    """supporting static fact: a probe translation unit whose static_assert states the expected answer of a compile-time question.
+    Discharged by the compiler (clang++ and g++), reported separately, never counted as a proved obligation."""
+    r = Result(ob)
+    d = os.path.join(workdir, san(ob.id)); os.makedirs(d, exist_ok=True)
+    src = os.path.join(d, 'probe.cc')
+    open(src, 'w').write(ob.body)
+    t0 = time.time()
+    outs = []
+    for comp in (CLANG, 'g++'):
+        rc, out, err, dt = run([comp, '-std=' + ob.std, '-fsyntax-only', '-w', '-I' + INC, src], timeout=300)
+        outs.append((comp, rc, err))
+    r.seconds = time.time() - t0
+    r.backend = 'compiler static_assert (clang++-14, g++)'
+    r.n_props = 1
+    r.canary = True
+    bad = [(c, e) for c, rc, e in outs if rc != 0]
+    if not bad:
+        r.status = 'proved'
+    else:
+        r.status = 'failed'
+        kind = 'static_assert failed (compile-time answer differs from the documented formula)' if any('VF_STATIC_FACT' in e for c, e in bad) \
+            else 'hard error: asking the question made the program ill-formed'
+        r.failed_props = ['STATIC:%s [%s]' % (kind, ob.id)]
+        r.log = '\n'.join('%s: %s' % (c, e[-1500:]) for c, e in bad)
+        r.detail = r.log[-600:]
+    return r
+
+
 def solve_ob(args):
     ob, prep, do_twin = args
     r = Result(ob)
+    if ob.kind == 'S':
+        return solve_static(ob, prep[1])
     if prep[0] != 'ok':
         r.status = 'error'; r.detail = prep[1]; return r
     info = prep[1]; d = info['dir']
